@@ -503,3 +503,35 @@ PROPS["C09"] = dict(
                "(writer pipeline: DataSetWriter, not within reach)", "reading the group back (equality), attribute operations on the table",
                "preamble detection when opening files"],
 )
+
+# ----------------------------------------------------------------------- C34
+PROPS["C34"] = dict(
+    level="proof",
+    units=[
+        K("C34.failing_writer", "ext",
+          ["c34::c34_headers_explicit_le", "c34::c34_headers_explicit_be", "c34::c34_headers_implicit_le"],
+          "the three real header encoders (element header, item header, item and sequence delimiters) over a writer that stops "
+          "accepting bytes at ANY offset: the call returns Err (never success with incomplete output); on Ok the reported size equals "
+          "the bytes accepted",
+          fns=_enc_fns("encode_element_header"), timeout=600),
+        K("C34.failing_writer_values", "ext", ["c34::c34_primitive_u16_n2", "c34::c34_offset_table_n2"],
+          "encode_primitive (two U16 items) and encode_offset_table (two entries) over a writer failing at any offset",
+          complete=False, bound="2 items / 2 entries (concrete lengths), contents and failure offset symbolic", timeout=600),
+        V("C34.stateful_encoder", "c04_stateful_encoder.vrs",
+          "every StatefulEncoder method (headers, items, delimiters, write_bytes, write_raw_bytes, offset table, text and binary "
+          "elements): Ok is returned only if the sink reported no failure during the call (ghost failure counter on the Write shim; "
+          "EncodeTo represented by the contract proved by C34.failing_writer)",
+          expected_verified=16),
+        V("C34.stateful_decoder", "c07_stateful_decoder.vrs",
+          "every StatefulDecoder reader: Ok is returned only if the source reported no failure during the call (ghost failure "
+          "counter on the Read shim), and a source that ends early is an error (read_to / skip_bytes)",
+          expected_verified=49),
+        V("C34.pdata_writer", "c26_pdata_writer.vrs",
+          "PDataWriter::write / dispatch_pdu / finish_impl: a transport failure makes the call return Err", expected_verified=11),
+    ],
+    assumptions=["a failing writer is modelled as one that accepts zero bytes from some offset on (std write_all turns that into an error); "
+                 "io::Error values produced by the writer itself are outside the Kani harnesses (bit-packed representation is too costly)",
+                 "Drop for PDataWriter discards the result of finish_impl by design; the public finish() propagates it"],
+    uncovered=["whole-file / data-set writers (FileDicomObject::write_*, DataSetWriter)", "deflate adapter", "data set readers, file readers",
+               "PDU send/receive in associations"],
+)
